@@ -43,9 +43,11 @@ impl Session {
         match timeout_in(Duration::from_secs(crate::CONFIG.keepalive_timeout()), async {
             let mut req = Request::init(self.ip);
             let mut req = unsafe {Pin::new_unchecked(&mut req)};
+            // bytes received with a request but belonging to the next one ( pipelining )
+            let mut carry = Vec::new();
             loop {
                 req.clear();
-                match req.as_mut().read(&mut self.connection).await {
+                match req.as_mut().read_carrying(&mut self.connection, &mut carry).await {
                     Ok(Some(())) => {
                         let close = matches!(req.headers.Connection(), Some("close" | "Close"));
 
